@@ -43,6 +43,8 @@ class CfdpLv:
 
         :raise ValueError: Invalid length found
         """
+        if len(raw_bytes) < 1:
+            raise ValueError("LV field needs at least one byte")
         detected_len = raw_bytes[0]
         if 1 + detected_len > len(raw_bytes):
             raise ValueError("Detected length exceeds size of passed bytearray")
